@@ -644,8 +644,8 @@ CAMPAIGNS['C14'].append(
          'creation of a backup sub-directory fails (caught per file), then '
          'the root function fails: everything is restored',
          mode='oserror-sweep', nontrivial=nt_rollback_restored, chunk=1,
-         follow=1, weight=0.4, only_calls=['makedirs'], crash_end=True,
-         torn=False, sweep_max={'quick': 4, 'thorough': None}))
+         follow=0, weight=0.3, only_calls=['makedirs'], crash_end=True,
+         torn=False, sweep_max={'quick': 2, 'thorough': None}))
 RACE_RULE = ('a key (build_file path / subbuild name+arguments) performed '
              'directly by one thread while another thread reuses or '
              're-executes a cached subtree (depth 1-2) that contains it; '
